@@ -127,7 +127,6 @@ Section Proofs.
         * split; [|discriminate].
           intros v0 E0. subst out.
           destruct e; try (apply bind_inv in Hev as [(tr1 & x & Hx & Hk)|(x & Hx & Ho)]; [inv Hk; apply typeof_nonempty | discriminate]).
-          destruct (w_unbound W ref); [destruct (w_genv W ref)|]; inv Hev; try apply typeof_nonempty; reflexivity.
     - (* EBin *)
       destruct Hwf as [Hwl Hwr].
       destruct op; try discriminate.
